@@ -10,6 +10,7 @@
    [parse_ok] says that the certificate attached to the key decodes and parses.
    [norm] maps the one-element list [""] to the empty list (spec/CertSpec.v). *)
 From IT Require Import spec.CertSpec proofs.CertProofs.
+From IT Require Import gen.CertChecks.
 
 (* one attribute: the wildcard permits anything; otherwise the certificate's
    values, read one-to-one (no repetition), are exactly the listed values *)
@@ -112,6 +113,14 @@ Theorem C07_step_cc_ok_spec : forall s cv parse_ok chain_ok root_ids,
   accepted_spec (s_cc s) (parse_ok = true) (chain_ok = true) cv root_ids.
 Proof. exact step_cc_ok_spec. Qed.
 Print Assumptions C07_step_cc_ok_spec.
+
+(* tie to the source: the list of checks of CertificateConstraint.Check and what each
+   of them compares, regenerated from in_toto/certconstraint.go on every run
+   (gen/CertChecks.v), is the skeleton transcribed in [constraint_check] *)
+Theorem C07_check_skeleton_pinned :
+  cert_check_calls = pinned_check_calls /\ cert_check_args = pinned_check_args.
+Proof. exact check_skeleton_pinned. Qed.
+Print Assumptions C07_check_skeleton_pinned.
 
 (* ---- non-vacuity ---- *)
 Definition ex_cv : certview :=
